@@ -50,4 +50,19 @@ theorem history (c : Cfg) (g : Glob) (hc : CfgOk c) (hr : C04.CfgRange c) :
     simp only [C05.runObs, holdsC04, List.all_cons, Bool.and_eq_true]
     exact ⟨step_holds c g w st img hc hr hi him, ih _ _ (fun i h => himgs i (by simp [h])) (parseFrameSt_inv c g w st img hi him)⟩
 
+
+/-- with the attributes changing from frame to frame (every Hello reflects the attributes current when it is built), every fault schedule -/
+theorem history_varying :
+    ∀ (items : List (Cfg × Glob × List Nat)) (w : World) (st : St),
+      (∀ it ∈ items, CfgOk it.1 ∧ C04.CfgRange it.1 ∧ ImgOk it.2.2) → St.Inv st → holdsC04 (C05.runObsV w st items) = true := by
+  intro items
+  induction items with
+  | nil => intro _ _ _ _; rfl
+  | cons it rest ih =>
+    intro w st hitems hi
+    obtain ⟨c, g, img⟩ := it
+    obtain ⟨hc, hr, him⟩ := hitems (c, g, img) (by simp)
+    simp only [C05.runObsV, holdsC04, List.all_cons, Bool.and_eq_true]
+    exact ⟨step_holds c g w st img hc hr hi him, ih _ _ (fun i h => hitems i (by simp [h])) (parseFrameSt_inv c g w st img hi him)⟩
+
 end LLTD.C04H
